@@ -182,3 +182,26 @@ def run_rules(rep, m, rules):
         if not hasattr(rep, "deferred_broken"):
             rep.deferred_broken = []
         rep.deferred_broken.append(str(e))
+
+
+def synchronous_withdrawals(m, f, cx, victim):
+    """Calls in f that withdraw, before they return, every pending wake-up of the process `victim` (canonical text):
+    cmi_process_cancel_awaiteds(victim) itself, or a function given the victim that reaches it through direct calls
+    (an interrupt only *schedules* the withdrawal: the handler runs later, possibly after another wake-up)."""
+    from ..astutil import walk, kids, callee_ref
+    reach = m.reaches({"cmi_process_cancel_awaiteds"})
+    out = []
+    for c in walk(f.body):
+        if c["kind"] != "CallExpr" or not callee_ref(c):
+            continue
+        args = [cx.canon(a) for a in kids(c)[1:]]
+        if victim not in args:
+            continue
+        nm = callee_ref(c)
+        if nm == "cmi_process_cancel_awaiteds":
+            out.append(c)
+            continue
+        key = m.resolve(f.unit, nm)
+        if key in reach and key in m.funcs and m.funcs[key].name not in ("cmb_process_stop",):
+            out.append(c)
+    return out
